@@ -366,5 +366,40 @@ func c05Worker(c *core.Collector, x *Ctx) {
 		}
 		run("sub-package games (no-crash oracle only)", fs, r.Intn(3), r, false)
 	})
+	// a transfer that replaces an abandoned one of the same ID and takes its time (virtual time): packet 1 of an attempt that is
+	// never finished; 10 / 30 / 50 s later packet 1 again and, 55 s after THAT, the rest — the new message is delivered, whole,
+	// although more than 60 s have passed since the abandoned attempt began
+	{
+		nslow := 0
+		for N := 2; N <= 5; N++ {
+			for _, gap := range []int64{10000, 30000, 50000} {
+				for v := 0; v < 2; v++ {
+					r := core.NewRand(c.Seed, "c05slow", uint64(N*100+int(gap/1000)*2+v))
+					id := core.Pick(r, []uint16{0x0801, 0x0704})
+					old := c05Bodies(r, N, 1)
+					nb := c05Bodies(r, N, v)
+					var frames [][]byte
+					var ops []hookOp
+					feed := func(f []byte) {
+						frames = append(frames, f)
+						for _, s := range hookSplit(f) {
+							ops = append(ops, hookOp{Feed: core.Hex(s)})
+						}
+					}
+					feed(hookFrame(v == 1, id, 100, true, uint16(N), 1, old[0]))
+					ops = append(ops, hookOp{AgeMs: gap})
+					feed(hookFrame(v == 1, id, 200, true, uint16(N), 1, nb[0]))
+					ops = append(ops, hookOp{AgeMs: 55000})
+					for k := 2; k <= N; k++ {
+						feed(hookFrame(v == 1, id, uint16(200+k), true, uint16(N), uint16(k), nb[k-1]))
+					}
+					sc := &hookScenario{Kind: "hook", Gen: "slow transfer that replaced an abandoned one", Frames: hexAll(frames), Ops: ops}
+					hookEval(c, sc, cats, true)
+					nslow++
+				}
+			}
+		}
+		c.Count("slow_transfers_replacing_an_abandoned_one", int64(nslow))
+	}
 	c.Floor("orders_enumerated", 100)
 }
